@@ -22,7 +22,7 @@ type stepCase struct {
 }
 
 func genStepCase(t *rapid.T, forced []int, limited int) stepCase {
-	m := gen.CoreSize(8192).Draw(t, "M")
+	m := gen.CoreSize(65536).Draw(t, "M")
 	var c stepCase
 	c.Cfg.M = m
 	switch limited {
@@ -249,7 +249,7 @@ func TestC01(t *testing.T) {
 	_ = rec
 	hx.Run(t, hx.Prop[stepCase]{
 		ID: "C01", Sub: "longrun", Checks: hx.Scale(1500, 400000),
-		Rule: "the same oracle over long runs: SPL/JMP-rich cores of 5..24 cells executed for 40..400 single-task cycles with process limits 5..1000 (queue grows, wraps and saturates repeatedly); core and queue compared after every cycle. Non-trivial and distinct as above.",
+		Rule:  "the same oracle over long runs: SPL/JMP-rich cores of 5..24 cells executed for 40..400 single-task cycles with process limits 5..1000 (queue grows, wraps and saturates repeatedly); core and queue compared after every cycle. Non-trivial and distinct as above.",
 		Gen:   genLongCase,
 		Judge: func(c stepCase, rec *hx.Rec) string { return judgeStepCase(c, rec, nil) },
 	})
